@@ -6,9 +6,11 @@ CONSTANTS
   KF_FindUnitRelock = FALSE
   MaxOps = 4
   ExportOps = 3
+  RedactNeedsTLSRecord = FALSE
   KeyFamily = "cover"
   DumpFile = "c19.ndjson"
 INVARIANTS
   NoSecretInReplies
   OthersUnchanged
   RefuseWithoutTLS
+  FailedSubmitLeavesUnit
